@@ -107,3 +107,18 @@ Definition variant_copy_samples (num_samples_alloc : Z) (samples : list Z) : res
   (fix go (buf : list Z) (k : Z) (l : list Z) : res (list Z) :=
      match l with [] => Ok buf | u :: r => do b <- set buf k u; go b (k + 1) r end)
   (alloc num_samples_alloc 0) 0 samples.
+
+(* ------------------------------------------------------------------------------------ *)
+(* c/tskit/tables.c tsk_table_collection_copy (l.11583-11590) + tsk_table_collection_set_indexes
+   (l.11382-11401): when the guard passes, edges.num_rows ids are memcpy'd out of each of the two
+   index arrays, which hold indexes.num_edges ids (the count at the time the index was built).
+   tsk_table_collection_has_index (l.11422-11428) = both pointers non-NULL AND
+   indexes.num_edges == edges.num_rows — the only protection against a STALE index (rows appended
+   to / removed from the edge table after build_index).  [guard_compares_counts = false] is the
+   seeded change C09-9 (pointers only). *)
+Definition copy_indexes (guard_compares_counts : bool) (index_num_edges edges_num_rows : Z) : res unit :=
+  let ins := alloc index_num_edges 0 in
+  let rem := alloc index_num_edges 0 in
+  if guard_compares_counts && negb (index_num_edges =? edges_num_rows) then Ok tt (* not carried over *) else
+  do _ <- read_prefix ins 0 (Z.to_nat edges_num_rows);
+  read_prefix rem 0 (Z.to_nat edges_num_rows).
